@@ -75,7 +75,7 @@ def run_case(ctx, g, rng):
         how = "rdflib"
     else:
         d = rng.choice(gen.DELIMS)
-        recs = gen.records(rng, d, 1, 5)
+        recs = gen.records(rng, d, 0, 5)
         if rng.random() < 0.5 and recs and not any("" in spec.all_p(r) for r in recs):
             i = rng.randrange(len(recs))
             r = recs[i]
